@@ -9,6 +9,7 @@ Tie:  H4 — the real parse_pattern_list / match_pattern_list (real regex / glob
       H5 — programs built with -fpatchable-function-entry=5 / -pg -mfentry
       -mnop-mcount run under the snapshot's `uftrace record -P … -U … -Z n`; the
       tracee dumps its maps, its own function bytes and call counters at exit."""
+import glob
 import json
 import os
 import re
@@ -670,7 +671,7 @@ def run_e2e(ctx, hexe, uft, failures, cov, model_ok=True, only=None):
                           for n, a, lg in scan if text[0] <= a < text[0] + text[1])
             t0, t1 = run_model(["dt 0 %s %s %s" % (sect, fallback, dt),
                                          "dt 1 %s %s %s" % (sect, fallback, dt)]) if model_ok else (None, None)
-            nat = subprocess.run([exe], stdout=subprocess.PIPE, stderr=subprocess.PIPE, text=True, timeout=20)
+            nat = subprocess.run([exe], stdout=subprocess.PIPE, stderr=subprocess.PIPE, text=True, timeout=20, cwd=wd)
             for ci in range(ncfg):
                 ptype, opts, z = (only["match"], [tuple(o) for o in only["options"]], only["size_filter"]) if only \
                     else gen_e2e_config(ctx.rng, names)
@@ -687,6 +688,14 @@ def run_e2e(ctx, hexe, uft, failures, cov, model_ok=True, only=None):
                 cmd.append(exe)
                 rr = subprocess.run(cmd, stdout=subprocess.PIPE, stderr=subprocess.PIPE, text=True, cwd=wd)
                 runs += 1
+                # shared-memory buffers of this session that the recorder did not unlink
+                for sm in glob.glob(os.path.join(data, "sid-*.map")):
+                    sid = os.path.basename(sm)[4:-4]
+                    for shm in glob.glob("/dev/shm/uftrace-%s-*" % sid):
+                        try:
+                            os.unlink(shm)
+                        except OSError:
+                            pass
                 rep = {"kind": "e2e", "program": "p%d" % pi, "build": bname, "flags": flags, "match": ptype,
                        "options": opts, "size_filter": z, "names": names, "source": src, "cmd": " ".join(cmd)}
                 if rr.returncode != 0 or rr.stdout != nat.stdout:
